@@ -182,9 +182,16 @@ def hist_header_set(W, ops, prng):
     def mhas(x):
         return any(m.lower() == x.lower() for m in model)
 
+    # a second response alive at the same time (another request being answered): its header is its own
+    other = W["Response"]()
+    other.headers[name] = "Seed"
     for op in ops:
         x = prng.choice(["Cookie", "cookie", "COOKIE", "Accept", "x y"])
         hist.append((op, x))
+        if prng.random() < 0.3:
+            # the other response's property is looked at between our view being handed out and being edited
+            "seed" in getattr(other, prop)  # noqa: B015
+            hist.append("other-response-read")
         if op == "add":
             hs.add(x)
             if not mhas(x):
@@ -230,6 +237,8 @@ def hist_header_set(W, ops, prng):
         fails = contracts.LOG.take()
         if fails:
             raise Drift(f"C16/header-set:invariant-{fails[0][0]}", f"{hist!r}: {fails[0][1]}")
+        if other.headers.get(name) != "Seed":
+            raise Drift("C16/header-set:edit-reached-another-response", f"{hist!r}: the other response's {name} is now {other.headers.get(name)!r}")
         hdr = r.headers.get(name)
         fresh = getattr(r, prop)
         if list(hs) != model:
@@ -431,6 +440,13 @@ def hist_content_range(W, ops, prng):
         elif op == "unset":
             cr.unset()
             m = None
+        elif op == "set_invalid":
+            # a range set() refuses (start beyond stop / beyond the length): the view and the header stay as they were
+            try:
+                cr.set(*prng.choice([(50, 10, 100), (5, 5, 10), (12, 20, 10)]))
+                raise Drift("C16/content_range:invalid-range-accepted", f"{hist!r}")
+            except AssertionError:
+                pass
         elif op == "attr_len":
             if m and m[1] is not None and (m[2] or 0) <= 20:
                 cr.length = 20
@@ -474,7 +490,7 @@ def hist_content_range(W, ops, prng):
     return hist
 
 
-CR_OPS = ["set", "set_nolen", "set_units", "set_unsat", "set_unsat_zero", "unset", "attr_len", "attr_start", "attr_stop", "units", "assign_str", "assign_none", "direct"]
+CR_OPS = ["set", "set_nolen", "set_units", "set_unsat", "set_unsat_zero", "unset", "set_invalid", "attr_len", "attr_start", "attr_stop", "units", "assign_str", "assign_none", "direct"]
 
 
 def hist_mimetype_params(W, ops, prng):
